@@ -59,6 +59,7 @@ class Family(NamedTuple):
     maxdepth: int
     sizes: dict              # tier -> (core max size, extra size for the seed-rotated slice or None)
     aim: str
+    n_pool: dict | None = None   # tier -> trip counts, when the family needs more iterations than the default pool
 
 
 # --------------------------------------------------------------------------
@@ -226,6 +227,24 @@ FAMILIES = (
         sizes={'quick': (4, 5), 'thorough': (6, None)},
         aim='tuple targets partly or wholly unused (binding scrubbed to `_`, statement dropped when the right '
             'side is judged pure), tuple values packed and unpacked, a mutating call inside a tuple'),
+    Family(
+        name='loop_tuple', decorator=f'@fp.fpy(ctx={C_FP64})', params='n: fp.Real', argnames=('n',),
+        atoms=(
+            A('a, b, c = (0, 1, 0)', '', 'a b c'),
+            A('a, b = (b, a)', 'a b', 'a b'),
+            A('a, b = (b, a + b)', 'a b', 'a b'),
+            A('c = c + a', 'a c', 'c'),
+            A('c = a', 'a', 'c'),
+            A('b = b + 1', 'b', 'b'),
+        ),
+        wraps=_LOOPS,
+        returns=(A('return c', 'c'), A('return a', 'a'), A('return b', 'b')),
+        maxdepth=1,
+        sizes={'quick': (4, 5), 'thorough': (6, None)},
+        n_pool={'quick': [0, 1, 3, 4], 'thorough': [0, 1, 2, 3, 4, 5]},
+        aim='tuple destructuring inside a for/while body over loop-carried names initialised to constants, with '
+            'uses of the destructured names later in the same iteration (swap, Fibonacci step): a constant of '
+            'the first analysis pass must not survive the widening of the loop-header merges; needs >= 3 trips'),
 )
 
 FAMILY_BY_NAME = {f.name: f for f in FAMILIES}
